@@ -46,7 +46,7 @@ enum St { RUNNABLE, WANT_MUTEX, WAIT_COND, WANT_JOIN, FINISHED };
 const char * stname[] = {"RUNNABLE", "WANT_MUTEX", "WAIT_COND", "WANT_JOIN", "FINISHED"};
 struct Th {
     int id; sem_t sem; St st; void * obj; void * obj2; pthread_t pt; void * (*fn)(void *); void * arg;
-    void * bt[32]; int nbt; long prio; bool timed; bool timedout; char site[96]; long long deadline_ns; clockid_t clk;
+    void * bt[32]; int nbt; long prio; bool timed; bool timedout; char site[96]; long long deadline_ns; clockid_t clk; int hold;
 };
 const int MAXT = 32;
 Th * T[MAXT]; int nT = 0;
@@ -188,6 +188,13 @@ void schedule() {
         for (int i = 0; i < nT && nc == 0; i++) if (T[i]->st == WAIT_COND && T[i]->timed) { T[i]->st = WANT_MUTEX; T[i]->obj = T[i]->obj2; T[i]->timedout = true; expire(T[i]); if (enabled(T[i])) cand[nc++] = T[i]; }
         if (nc == 0) { report("deadlock"); r_unlock(&G); _exit(42); }
     }
+    // injected delay: a thread held at its pre-wait point is passed over for a few decisions as long as somebody else can run
+    {
+        Th * free_[MAXT]; int nf = 0;
+        for (int i = 0; i < nc; i++) if (cand[i]->hold <= 0) free_[nf++] = cand[i];
+        for (int i = 0; i < nT; i++) if (T[i]->hold > 0) T[i]->hold--;
+        if (nf > 0 && nf < nc) { for (int i = 0; i < nf; i++) cand[i] = free_[i]; nc = nf; }
+    }
     Th * next = nullptr;
     if (replay_seq && replay_i < replay_n) {
         int want = replay_seq[replay_i++];
@@ -303,8 +310,8 @@ static int do_wait(pthread_cond_t * c, pthread_mutex_t * m, bool timed, clockid_
     // pre-wait window: the predicate has been evaluated, the mutex is still held, the thread is not yet in the wait set.
     // Threads that need this mutex stay blocked; a notifier that does not take it can run here - and its wake-up is lost,
     // exactly as on real hardware.
-    r_lock(&G); self->st = RUNNABLE; schedule();
-    r_lock(&G); owner_of(m) = -1; self->st = WAIT_COND; self->obj = c; self->obj2 = m; self->timed = timed; self->timedout = false;
+    r_lock(&G); self->st = RUNNABLE; if (rnd() % 2) self->hold = 4 + (int)(rnd() % 16); schedule();
+    r_lock(&G); self->hold = 0; owner_of(m) = -1; self->st = WAIT_COND; self->obj = c; self->obj2 = m; self->timed = timed; self->timedout = false;
     {   // count the blocked-at-site event
         void * bt[32]; int n = backtrace(bt, 32); count_site(site_of(bt, n));
     }
